@@ -61,6 +61,19 @@ theorem loop_away (step : Int → Int) (t0 t1 : Int)
     have b : step t0 ≥ t0 := h2
     simp [loopBranch, a, h1, b]
 
+/-- the same for the checked `dt_bump` loops -/
+theorem loopC_away (step : Int → Int) (t0 t1 : Int)
+    (h : (t0 < t1 ∧ step t0 ≤ t0) ∨ (t1 < t0 ∧ t0 ≤ step t0)) : loopBranchC step t0 t1 = .error .value := by
+  unfold loopBranchC
+  rcases h with ⟨h1, h2⟩ | ⟨h1, h2⟩
+  · have a : t1 > t0 := h1
+    have b : t0 ≤ t1 := by omega
+    rw [if_pos a]; unfold iterUpC; rw [if_pos b, if_pos h2]
+  · have a : ¬ t1 > t0 := by omega
+    have b : t0 ≥ t1 := by omega
+    have c : step t0 ≥ t0 := h2
+    rw [if_neg a, if_pos h1]; unfold iterDownC; rw [if_pos b, if_pos c]
+
 /-! ### timedelta bumps (incl. intraday) -/
 
 theorem iter_add (us : Int) : ∀ (i : Nat) (t : Int), iter (· + us) i t = t + us * i
@@ -156,6 +169,7 @@ theorem int_td_str_agree (t0 t1 n : Int) (hn : n ≠ 0) (hal : (t1 - t0) % DAY =
     · have hn' : ¬ n > 0 := by omega
       have hb : ¬ (Per.d = Per.b) := by decide
       simp only [hb, false_or, hn', if_false, hstep]
+      exact (loopBranchC_eq _ (Or.inr fun t => by show t + DAY * n < t; unfold DAY; omega) t0 t1).symm
 
 /-- whole days apart, an integer bump of the wrong sign raises `ValueError` -/
 theorem int_away (t0 t1 n : Int) (hal : (t1 - t0) % DAY = 0)
@@ -185,7 +199,8 @@ theorem compound_forward (p q : Int × Per) (rest : List (Int × Per)) (t0 t1 : 
   obtain ⟨l, h1, h2⟩ := loop_forward _ hinc t0 t1 h
   refine ⟨l, ?_, h2⟩
   have : t0 ≠ t1 := by omega
-  simp [drange, this, h1]
+  rw [← h1, ← loopBranchC_eq _ (Or.inl hinc)]
+  simp [drange, this]
 
 theorem compound_backward (p q : Int × Per) (rest : List (Int × Per)) (t0 t1 : Int) (h : t1 < t0)
     (hdec : ∀ t, dtBump (p :: q :: rest) t < t) :
@@ -194,7 +209,8 @@ theorem compound_backward (p q : Int × Per) (rest : List (Int × Per)) (t0 t1 :
   obtain ⟨l, h1, h2⟩ := loop_backward _ hdec t0 t1 h
   refine ⟨l, ?_, h2⟩
   have : t0 ≠ t1 := by omega
-  simp [drange, this, h1]
+  rw [← h1, ← loopBranchC_eq _ (Or.inr hdec)]
+  simp [drange, this]
 
 /-- the hypothesis of `compound_forward` is a theorem for parts made of d, w, h, n, s, b with positive counts
 (and `dtBump_dec` for negative counts) -/
@@ -230,7 +246,7 @@ theorem single_backward (n : Int) (u : Per) (hu : u ≠ .b) (hn : n < 0) (t0 t1 
   refine ⟨l, ?_, h2⟩
   have hne : t0 ≠ t1 := by omega
   have hn' : ¬ n > 0 := by omega
-  simp only [drange, hne, if_false, hu, false_or, hn', h1]
+  simp only [drange, hne, if_false, hu, false_or, hn', loopBranchC_eq _ (Or.inr hdec), h1]
 
 /-! ### month, quarter, year bumps: strict monotonicity is a theorem of the Gregorian arithmetic -/
 
@@ -311,7 +327,7 @@ theorem single_away_neg_all (n : Int) (u : Per) (hu : u ≠ .b) (hn : n < 0) (t0
   have hne : t0 ≠ t1 := by omega
   have hn' : ¬ n > 0 := by omega
   have hdec := all_parts_move_backward [(n, u)] (by simp) (fun p hp => by simp at hp; subst hp; show n ≤ -1; omega) t0
-  have := loop_away (dtBump [(n, u)]) t0 t1 (Or.inl ⟨h, by omega⟩)
+  have := loopC_away (dtBump [(n, u)]) t0 t1 (Or.inl ⟨h, by omega⟩)
   simp only [drange, hne, if_false, hu, false_or, hn', this]
 
 /-- single period strings (the rrule branch) give the list obtained by iterating the period step: for units of fixed
@@ -347,6 +363,94 @@ theorem single_eq_iter_step (n : Int) (u : Per) (hu : u ≠ .b) (hn : 0 < n) (t0
       cases u <;> simp [Per.fixed] at hf' <;> simp [rruleStep, ht]
     refine ⟨e, ?_⟩
     cases u <;> simp [Per.fixed] at hf' <;> simp [bump1, monthBump, yearBump, Int.mul_emod_left]
+
+/-! ### compound tenors of ANY signs and units: never an empty or unbounded list (repair F15) -/
+
+/-- the checked `dt_bump` loop, for an arbitrary step and `t0 < t1`: EITHER the exact range — `l[i] = step^i t0`, all
+inside `[t0,t1]`, the next iterate beyond `t1`, starts at `t0`, strictly increasing — OR `ValueError`, and then some
+iterate reached inside the range failed to move strictly forward.  No hypothesis on the step. -/
+theorem loopC_forward (step : Int → Int) (t0 t1 : Int) (h : t0 < t1) :
+    (∃ l, loopBranchC step t0 t1 = .ok l ∧ IsRangeUp step t0 t1 l ∧ l.head? = some t0 ∧ l.Pairwise (· < ·) ∧
+      ∀ x ∈ l, t0 ≤ x ∧ x ≤ t1) ∨
+    (loopBranchC step t0 t1 = .error .value ∧
+      ∃ i, (∀ j, j ≤ i → iter step j t0 ≤ t1) ∧ step (iter step i t0) ≤ iter step i t0) := by
+  have h1 : t1 > t0 := h
+  unfold loopBranchC
+  rw [if_pos h1]
+  rcases iterUpC_spec step t1 ((t1 - t0).toNat + 1) t0 (by omega) with ⟨l, e, hr, hp, hm⟩ | hbad
+  · exact Or.inl ⟨l, e, hr, hr.head (by omega), hp, hm⟩
+  · exact Or.inr hbad
+
+theorem loopC_backward (step : Int → Int) (t0 t1 : Int) (h : t1 < t0) :
+    (∃ l, loopBranchC step t0 t1 = .ok l ∧ IsRangeDown step t0 t1 l ∧ l.head? = some t0 ∧ l.Pairwise (· > ·) ∧
+      ∀ x ∈ l, t1 ≤ x ∧ x ≤ t0) ∨
+    (loopBranchC step t0 t1 = .error .value ∧
+      ∃ i, (∀ j, j ≤ i → t1 ≤ iter step j t0) ∧ iter step i t0 ≤ step (iter step i t0)) := by
+  have h1 : ¬ t1 > t0 := by omega
+  unfold loopBranchC
+  rw [if_neg h1, if_pos h]
+  rcases iterDownC_spec step t1 ((t0 - t1).toNat + 1) t0 (by omega) with ⟨l, e, hr, hp, hm⟩ | hbad
+  · exact Or.inl ⟨l, e, hr, hr.head (by omega), hp, hm⟩
+  · exact Or.inr hbad
+
+/-- every compound period string — mixed signs, any units — takes that loop -/
+theorem compound_is_loopC (p q : Int × Per) (rest : List (Int × Per)) (t0 t1 : Int) (h : t0 ≠ t1) :
+    drange t0 t1 (.period (p :: q :: rest)) = loopBranchC (dtBump (p :: q :: rest)) t0 t1 := by
+  simp [drange, h]
+
+/-- so a compound tenor gives the exact strictly increasing range or raises `ValueError` — it never returns an empty
+list and never runs on for ever -/
+theorem compound_never_unbounded (p q : Int × Per) (rest : List (Int × Per)) (t0 t1 : Int) (h : t0 < t1) :
+    (∃ l, drange t0 t1 (.period (p :: q :: rest)) = .ok l ∧ IsRangeUp (dtBump (p :: q :: rest)) t0 t1 l ∧
+      l.head? = some t0 ∧ l.Pairwise (· < ·) ∧ ∀ x ∈ l, t0 ≤ x ∧ x ≤ t1) ∨
+    drange t0 t1 (.period (p :: q :: rest)) = .error .value := by
+  rw [compound_is_loopC p q rest t0 t1 (by omega)]
+  rcases loopC_forward (dtBump (p :: q :: rest)) t0 t1 h with hl | ⟨e, _⟩
+  · exact Or.inl hl
+  · exact Or.inr e
+
+/-- the witness of F15: `'1m-30d'` from 2001-01-28 (a day of month every month has) towards 2001-06-01 -/
+def f15Step : Int → Int := dtBump [(1, .m), (-30, .d)]
+def f15T0 : Int := (Civil.ord 2001 1 28 - 1) * DAY
+def f15T1 : Int := (Civil.ord 2001 6 1 - 1) * DAY
+
+/-- **the monotonicity hypothesis is false for a tenor inside the quantifier**: `'1m-30d'` passes the direction test
+at `t0` (01-28 → 01-29), walks 01-29, 01-30, 01-31, 02-01 and then steps BACK to 01-30: the orbit is periodic and
+never passes `t1`, so the `while t <= t1` loop of the pinned code, which tests the direction at `t0` only, never
+exits (no result, unbounded list).  The repaired loop raises `ValueError`. -/
+theorem mixed_sign_not_monotone :
+    f15T0 < f15Step f15T0 ∧ f15Step (iter f15Step 4 f15T0) < iter f15Step 4 f15T0 ∧
+    iter f15Step 5 f15T0 = iter f15Step 2 f15T0 ∧ (∀ i, iter f15Step i f15T0 ≤ f15T1) ∧
+    drange f15T0 f15T1 (.period [(1, .m), (-30, .d)]) = .error .value := by
+  have e1 : f15Step f15T0 = f15T0 + DAY := by decide +kernel
+  have e2 : f15Step (f15T0 + DAY) = f15T0 + 2 * DAY := by decide +kernel
+  have e3 : f15Step (f15T0 + 2 * DAY) = f15T0 + 3 * DAY := by decide +kernel
+  have e4 : f15Step (f15T0 + 3 * DAY) = f15T0 + 4 * DAY := by decide +kernel
+  have e5 : f15Step (f15T0 + 4 * DAY) = f15T0 + 2 * DAY := by decide +kernel
+  have hD : f15T0 + 4 * DAY ≤ f15T1 := by decide +kernel
+  have i1 : iter f15Step 1 f15T0 = f15T0 + DAY := e1
+  have i2 : iter f15Step 2 f15T0 = f15T0 + 2 * DAY := by rw [iter_succ_outer, i1, e2]
+  have i3 : iter f15Step 3 f15T0 = f15T0 + 3 * DAY := by rw [iter_succ_outer, i2, e3]
+  have i4 : iter f15Step 4 f15T0 = f15T0 + 4 * DAY := by rw [iter_succ_outer, i3, e4]
+  have i5 : iter f15Step 5 f15T0 = f15T0 + 2 * DAY := by rw [iter_succ_outer, i4, e5]
+  have orbit : ∀ i, iter f15Step i f15T0 = f15T0 ∨ iter f15Step i f15T0 = f15T0 + DAY ∨
+      iter f15Step i f15T0 = f15T0 + 2 * DAY ∨ iter f15Step i f15T0 = f15T0 + 3 * DAY ∨
+      iter f15Step i f15T0 = f15T0 + 4 * DAY := by
+    intro i
+    induction i with
+    | zero => exact Or.inl rfl
+    | succ i ih =>
+      rw [iter_succ_outer]
+      rcases ih with h | h | h | h | h <;> rw [h]
+      · exact Or.inr (Or.inl e1)
+      · exact Or.inr (Or.inr (Or.inl e2))
+      · exact Or.inr (Or.inr (Or.inr (Or.inl e3)))
+      · exact Or.inr (Or.inr (Or.inr (Or.inr e4)))
+      · exact Or.inr (Or.inr (Or.inl e5))
+  refine ⟨by rw [e1]; unfold DAY; omega, by rw [i4, e5]; unfold DAY; omega, by rw [i5, i2], fun i => ?_, by rfl⟩
+  have := orbit i
+  unfold DAY at *
+  omega
 
 /-! ### the step is the C09 model of `dt_bump` (`Pyg.Bump`, generated kernels + `Pyg.Greg`), not a local copy -/
 
@@ -456,7 +560,7 @@ theorem single_away_neg (n : Int) (u : Per) (hu : u ≠ .b) (hf : u.fixed = true
   have hne : t0 ≠ t1 := by omega
   have hn' : ¬ n > 0 := by omega
   have hdec := dtBump_dec [(n, u)] t0 (by simp) (fun p hp => by simp at hp; subst hp; exact ⟨hf, by omega⟩)
-  have := loop_away (dtBump [(n, u)]) t0 t1 (Or.inl ⟨h, by omega⟩)
+  have := loopC_away (dtBump [(n, u)]) t0 t1 (Or.inl ⟨h, by omega⟩)
   simp only [drange, hne, if_false, hu, false_or, hn', this]
 
 /-! ### business-day bumps -/
